@@ -8,6 +8,7 @@ from collections import defaultdict
 import errno
 import io
 import locale
+import math
 import os
 import re
 from subprocess import check_output, CalledProcessError
@@ -307,6 +308,35 @@ def setup_std_streams():
     if sys.platform.startswith('win'):
         import colorama
         colorama.init()
+
+
+def strict_equals(a, b):
+    """Compare json-like values, telling apart what JSON tells apart.
+
+    Python's == compares bool, int and float by numeric value, so that
+    True == 1 == 1.0 and 0.0 == -0.0, but these are different JSON values.
+    """
+    if not a == b:
+        return False
+    return _same_json_types(a, b)
+
+
+def _same_json_types(a, b):
+    # Only used on values that compare equal with ==
+    if isinstance(a, dict):
+        return isinstance(b, dict) and all(
+            _same_json_types(v, b[k]) for k, v in a.items())
+    if isinstance(a, (list, tuple)):
+        return isinstance(b, (list, tuple)) and all(
+            _same_json_types(x, y) for x, y in zip(a, b))
+    if isinstance(a, bool) or isinstance(b, bool):
+        return isinstance(a, bool) and isinstance(b, bool)
+    if isinstance(a, float):
+        return (isinstance(b, float) and
+                math.copysign(1.0, a) == math.copysign(1.0, b))
+    if isinstance(a, int):
+        return isinstance(b, int)
+    return True
 
 
 def split_os_path(path):
